@@ -36,7 +36,8 @@ CONSTANTS Modes,         \* subset of {"gen", "run"}
           MaxSteps,      \* estimation steps (tables in .ext / .phi)
           RowSets,       \* subset of {"full", "nocov", "abort", "nm72", "covabort"}
           IterSets,      \* subset of {"0-5-10", "5-10", "0"}
-          AllPhi         \* TRUE: every .phi variant with every run; FALSE: one variant per run
+          AllPhi,        \* TRUE: every .phi variant with every run; FALSE: one variant per run
+          AllIters       \* TRUE: every iteration set with every run; FALSE: one per run ("0" / "0-5-10" alternating)
 
 VARIABLES mode, file, lines, pc, acc     \* lines: the line sequence of the file (computed once)
 vars == <<mode, file, lines, pc, acc>>
@@ -152,6 +153,7 @@ Init == /\ pc = 1
                     /\ \A k \in 1..(Len(tabs) - 1) : tabs[k].rows # "abort"
                     /\ \A k \in 1..Len(tabs) : tabs[k].iters = tabs[1].iters
                     /\ (~AllPhi => pv = ((cfg.nth + Len(tabs) + (IF tabs[Len(tabs)].rows = "full" THEN 1 ELSE 0)) % 3))
+                    /\ (~AllIters => tabs[1].iters = IF (cfg.nth + Len(tabs) + (IF cfg.sg = "d1" THEN 0 ELSE 1)) % 2 = 0 THEN "0" ELSE "0-5-10")
                     /\ file = [cfg |-> cfg, tabs |-> tabs, phikind |-> IF pv = 2 THEN "PHI" ELSE "ETA", zero |-> pv = 1]
                     /\ lines = ExtLines([cfg |-> cfg, tabs |-> tabs])
 
@@ -267,10 +269,14 @@ PhiObj(t, s) == 5 + 2 * s + t
 \* position of (i,j), i >= j, in the flattened triangle
 TriPos(i, j) == (i * (i - 1)) \div 2 + j
 PhiZero(s) == file.zero /\ s = 2               \* an individual without observations: all zero, not reported
+\* EM methods write PHI(i) = MU_i + ETA(i) (docs/NONMEM.rst); the synthetic model has MU_1 = THETA(1), so the
+\* MU_1 of step k is the final estimate of THETA(1) in table k (THETA1 is the first column of the file)
+Mu(k, i) == IF file.phikind = "PHI" /\ i = 1 THEN RefFinal(ExtRows(file.cfg, file.tabs[k])).vals[1] ELSE 0
 PhiExpected(t) == LET n == Dim(file.cfg.om)
                       S == IF file.zero THEN <<1, 3>> ELSE <<1, 2, 3>> IN
     [q \in 1..Len(S) |-> [id |-> PhiIds[S[q]], obj |-> PhiObj(t, S[q]),
-                          eta |-> [i \in 1..n |-> EtaVal(t, S[q], i)],
+                          eta |-> [i \in 1..n |-> EtaVal(t, S[q], i)],            \* the individual estimate to report
+                          raw |-> [i \in 1..n |-> EtaVal(t, S[q], i) + Mu(t, i)],  \* the ETA(i) / PHI(i) column as written
                           etc |-> [i \in 1..n |-> [j \in 1..n |-> IF i >= j THEN EtcVal(t, S[q], i, j) ELSE EtcVal(t, S[q], j, i)]]]]
 \* the flattened row as written, and the transcription of flattened_to_symmetric proved equal to the reference
 PhiFlat(t, s) == LET tr == TriSeq(Dim(file.cfg.om)) IN [k \in 1..Len(tr) |-> IF PhiZero(s) THEN 0 ELSE EtcVal(t, s, tr[k][1], tr[k][2])]
@@ -300,7 +306,7 @@ Emit ==
                       phi |-> [k \in 1..Len(file.tabs) |->
                                  [flat |-> [s \in 1..3 |-> PhiFlat(file.tabs[k].no, s)],
                                   rows |-> [s \in 1..3 |-> [id |-> PhiIds[s], zero |-> PhiZero(s),
-                                                            eta |-> [i \in 1..Dim(cfg.om) |-> IF PhiZero(s) THEN 0 ELSE EtaVal(file.tabs[k].no, s, i)],
+                                                            eta |-> [i \in 1..Dim(cfg.om) |-> IF PhiZero(s) THEN 0 ELSE EtaVal(file.tabs[k].no, s, i) + Mu(k, i)],
                                                             obj |-> IF PhiZero(s) THEN 0 ELSE PhiObj(file.tabs[k].no, s)]],
                                   expected |-> PhiExpected(file.tabs[k].no)]]])>>)
 =============================================================================
